@@ -1,6 +1,9 @@
 package main
 
 import (
+	"bytes"
+	"unsafe"
+
 	"github.com/pion/rtp"
 )
 
@@ -166,6 +169,540 @@ func init() {
 					prev, _ = q.Marshal()
 				}
 				observeC01(c, p, prev)
+			})
+		}
+	})
+}
+
+// ---------------------------------------------------------------------------------------------
+// C04 — MarshalTo honours the destination buffer contract.
+
+// fillDst returns a destination of n bytes with the given prior contents
+// (0: 0x00, 1: 0xFF, 2: 0xEE, 3: random).
+func fillDst(r *Rand, n, fill int) []byte {
+	if n < 0 {
+		n = 0
+	}
+	switch fill {
+	case 0:
+		return make([]byte, n)
+	case 1:
+		return bytes.Repeat([]byte{0xFF}, n)
+	case 2:
+		return bytes.Repeat([]byte{0xEE}, n)
+	}
+	return r.Bytes(n)
+}
+
+// observeC04 writes: size hsize marshal hmarshal pto pbuf hto hbuf
+func observeC04(c *Case, in *PacketIn, dst []byte) {
+	writePacketIn(&c.I, in)
+	c.I.Bytes(dst)
+	pkt := in.Build()
+	var size, hsize int
+	if try(func() { size = pkt.MarshalSize(); hsize = pkt.Header.MarshalSize() }) {
+		c.O.Tok("panic-MarshalSize")
+		return
+	}
+	c.O.Nat(size).Nat(hsize)
+	var bs, hb []byte
+	var err error
+	if try(func() { bs, err = pkt.Marshal() }) {
+		c.O.Panic()
+	} else if writeRes(&c.O, err) {
+		c.O.Bytes(bs)
+	}
+	if try(func() { hb, err = pkt.Header.Marshal() }) {
+		c.O.Panic()
+	} else if writeRes(&c.O, err) {
+		c.O.Bytes(hb)
+	}
+	var n int
+	// the destination is the tail of a larger array, so a write beyond len(dst) would be caught
+	// by the run time (index out of range), never silently absorbed by spare capacity
+	pbuf := cloneBytes(dst)
+	pbuf = pbuf[:len(pbuf):len(pbuf)]
+	if try(func() { n, err = pkt.MarshalTo(pbuf) }) {
+		c.O.Panic()
+	} else if writeRes(&c.O, err) {
+		c.O.Nat(n)
+	}
+	c.O.Bytes(pbuf)
+	hbuf := cloneBytes(dst)
+	hbuf = hbuf[:len(hbuf):len(hbuf)]
+	if try(func() { n, err = pkt.Header.MarshalTo(hbuf) }) {
+		c.O.Panic()
+	} else if writeRes(&c.O, err) {
+		c.O.Nat(n)
+	}
+	c.O.Bytes(hbuf)
+	switch {
+	case len(dst) < hsize:
+		c.Tag("dst<hdr")
+	case len(dst) < size:
+		c.Tag("hdr<=dst<size")
+	case len(dst) == size:
+		c.Tag("dst=size")
+	default:
+		c.Tag("dst>size")
+	}
+}
+
+// c04Lengths lists the destination lengths of the boundary grid for a packet.
+func c04Lengths(pkt *rtp.Packet) []int {
+	size, hsize := 0, 0
+	if try(func() { size = pkt.MarshalSize(); hsize = pkt.Header.MarshalSize() }) {
+		return []int{0, 12, 64}
+	}
+	return []int{0, hsize - 1, hsize, size - 1, size, size + 1, size + 7}
+}
+
+// genPacketOdd draws a description outside C01's domain that the model still describes exactly
+// (never a legacy profile without an element: DESIGN §7 row 4 is another group's defect).
+func genPacketOdd(r *Rand, maxPayload int) *PacketIn {
+	p := genPacketWF(r, maxPayload)
+	switch r.Intn(7) {
+	case 0: // padding flag without a size
+		p.H.Padding = true
+		p.PadSize = 0
+	case 1: // size without the flag
+		p.H.Padding = false
+		p.PadSize = uint8(r.Range(1, 255))
+	case 2: // more CSRCs than the count field holds
+		p.H.CSRC = make([]uint32, r.Range(16, 40))
+		for i := range p.H.CSRC {
+			p.H.CSRC[i] = uint32(r.U64())
+		}
+	case 3: // legacy payload that is not whole words
+		p.H.Extension = true
+		p.H.ExtensionProfile = 0x4321
+		p.Exts = []ExtIn{{0, r.Bytes(r.Pick(1, 2, 3, 5, 6, 7, 9))}}
+	case 4: // one-byte elements with illegal ids / lengths
+		p.H.Extension = true
+		p.H.ExtensionProfile = 0xBEDE
+		p.Exts = nil
+		for i, n := 0, r.Range(1, 3); i < n; i++ {
+			p.Exts = append(p.Exts, ExtIn{uint8(r.Pick(0, 1, 14, 15, 16, 255)), r.Bytes(r.Pick(0, 1, 16, 17, 30))})
+		}
+	case 5: // two-byte elements with id 0 / oversized values
+		p.H.Extension = true
+		p.H.ExtensionProfile = 0x1000
+		p.Exts = nil
+		for i, n := 0, r.Range(1, 3); i < n; i++ {
+			p.Exts = append(p.Exts, ExtIn{uint8(r.Pick(0, 1, 255)), r.Bytes(r.Pick(0, 1, 255, 256, 300))})
+		}
+	case 6: // version / payload type out of range, elements present although X = 0
+		p.H.Version = uint8(r.Pick(4, 7, 255))
+		p.H.PayloadType = uint8(r.Range(128, 255))
+		if !p.H.Extension {
+			p.Exts = []ExtIn{{1, r.Bytes(2)}}
+		}
+	}
+	return p
+}
+
+func init() {
+	register("c04.to", "C04", func(x *Ctx) {
+		// boundary grid: profile x element lengths x payload x padding x destination length x prior contents
+		for kind := profNone; kind <= profLegacy; kind++ {
+			var elemSets [][]int
+			switch kind {
+			case profNone:
+				elemSets = [][]int{nil}
+			case profOne:
+				elemSets = [][]int{{}, {1}, {2}, {3}, {16}, {3, 16, 1}}
+			case profTwo:
+				elemSets = [][]int{{}, {0}, {1}, {2}, {255}, {1, 255, 0}}
+			case profLegacy:
+				elemSets = [][]int{{0}, {4}, {256}}
+			}
+			for _, lens := range elemSets {
+				for _, ncsrc := range []int{0, 15} {
+					for _, pl := range []int{0, 2, 5} {
+						for _, pad := range []int{0, 1, 4, 255} {
+							for li := 0; li < 7; li++ {
+								for fill := 0; fill < 4; fill++ {
+									kind, lens, ncsrc, pl, pad, li, fill := kind, lens, ncsrc, pl, pad, li, fill
+									x.Case(func(c *Case) {
+										p := &PacketIn{}
+										genFixed(c.R, &p.H)
+										p.H.CSRC = make([]uint32, ncsrc)
+										for i := range p.H.CSRC {
+											p.H.CSRC[i] = uint32(c.R.U64())
+										}
+										if kind != profNone {
+											p.H.Extension = true
+											switch kind {
+											case profOne:
+												p.H.ExtensionProfile = 0xBEDE
+											case profTwo:
+												p.H.ExtensionProfile = 0x1000
+											default:
+												p.H.ExtensionProfile = uint16(c.R.Pick(0, 0x1234, 0xFFFF))
+											}
+											for i, l := range lens {
+												id := uint8(i + 1)
+												if kind == profLegacy {
+													id = 0
+												}
+												p.Exts = append(p.Exts, ExtIn{id, c.R.Bytes(l)})
+											}
+										}
+										p.Payload = c.R.Bytes(pl)
+										if pad > 0 {
+											p.H.Padding = true
+											p.PadSize = uint8(pad)
+										}
+										tagPacket(c, p)
+										n := c04Lengths(p.Build())[li]
+										observeC04(c, p, fillDst(c.R, n, fill))
+									})
+								}
+							}
+						}
+					}
+				}
+			}
+		}
+		maxPl := 600
+		if x.Thorough() {
+			maxPl = 8000
+		}
+		for i, n := 0, x.N(30000, 1500000); i < n; i++ {
+			x.Case(func(c *Case) {
+				var p *PacketIn
+				if c.R.Chance(1, 10) {
+					p = genPacketOdd(c.R, 100)
+					c.Tag("odd")
+				} else {
+					p = genPacketWF(c.R, maxPl)
+				}
+				tagPacket(c, p)
+				ls := c04Lengths(p.Build())
+				var n int
+				switch c.R.Intn(4) {
+				case 0:
+					n = c.R.Intn(ls[4] + 17)
+				case 1:
+					n = ls[4] + c.R.Pick(-2, -1, 0, 1, 2, 3, 16, 100)
+				default:
+					n = ls[c.R.Intn(len(ls))]
+				}
+				observeC04(c, p, fillDst(c.R, n, c.R.Intn(4)))
+			})
+		}
+	})
+}
+
+// ---------------------------------------------------------------------------------------------
+// C20 — Clone returns an equal, fully independent copy.
+
+// c20Nils describes where a value holds nil slices.
+type c20Nils struct {
+	csrc, payload, exts bool
+	extPl               []bool
+}
+
+func nilsOfHeader(h *rtp.Header) c20Nils {
+	n := c20Nils{csrc: h.CSRC == nil, exts: h.Extensions == nil}
+	_, pls := rtp.VerifExtensions(h)
+	for _, p := range pls {
+		n.extPl = append(n.extPl, p == nil)
+	}
+	return n
+}
+
+func writeNils(t *Toks, n c20Nils, withPayload bool) {
+	t.Bool(n.csrc)
+	if withPayload {
+		t.Bool(n.payload)
+	}
+	t.Bool(n.exts)
+	t.Nat(len(n.extPl))
+	for _, b := range n.extPl {
+		t.Bool(b)
+	}
+}
+
+// writeSide writes what one value shows: the canonical packet observation and the raw profile field.
+func writeSide(t *Toks, p *rtp.Packet) {
+	writePacketObs(t, p)
+	t.Nat(int(p.Header.ExtensionProfile))
+}
+
+// extArrayBytes views the backing array of a []Extension (up to capacity) as bytes, for the
+// pointer-range overlap test.
+func extArrayBytes(es []rtp.Extension) []byte {
+	if cap(es) == 0 {
+		return nil
+	}
+	sz := int(unsafe.Sizeof(rtp.Extension{})) * cap(es)
+	return unsafe.Slice((*byte)(unsafe.Pointer(unsafe.SliceData(es))), sz)[:sz:sz]
+}
+
+func csrcBytes(cs []uint32) []byte {
+	if cap(cs) == 0 {
+		return nil
+	}
+	sz := 4 * cap(cs)
+	return unsafe.Slice((*byte)(unsafe.Pointer(unsafe.SliceData(cs))), sz)[:sz:sz]
+}
+
+// byteSlicesOf lists every []byte reachable from a header (extension payloads) plus extra.
+func byteSlicesOf(h *rtp.Header, extra ...[]byte) [][]byte {
+	_, pls := rtp.VerifExtensions(h)
+	return append(pls, extra...)
+}
+
+func anyOverlap(as, bs [][]byte) bool {
+	for _, a := range as {
+		for _, b := range bs {
+			if overlaps(a, b) {
+				return true
+			}
+		}
+	}
+	return false
+}
+
+// c20Mut is the single mutation applied after cloning.
+type c20Mut struct {
+	kind, a, b int
+	bs         []byte
+}
+
+func (m c20Mut) apply(p *rtp.Packet) {
+	switch m.kind {
+	case 1:
+		if m.a < len(p.Payload) {
+			p.Payload[m.a] ^= 0xFF
+		}
+	case 2:
+		if m.a < len(p.CSRC) {
+			p.CSRC[m.a] ^= 0xFFFFFFFF
+		}
+	case 3:
+		_, pls := rtp.VerifExtensions(&p.Header)
+		if m.a < len(pls) && m.b < len(pls[m.a]) {
+			pls[m.a][m.b] ^= 0xFF
+		}
+	case 4:
+		_ = p.Header.SetExtension(uint8(m.a), cloneBytes(m.bs))
+	case 5:
+		_ = p.Header.DelExtension(uint8(m.a))
+	}
+}
+
+// buildC20 builds the packet with the nil-ness the description asks for.
+func buildC20(in *PacketIn, extsNil bool) *rtp.Packet {
+	pkt := in.Build()
+	if len(in.Exts) == 0 && !extsNil {
+		pkt.Header.Extensions = []rtp.Extension{}
+	}
+	return pkt
+}
+
+func marshalTok(t *Toks, p *rtp.Packet) {
+	var bs []byte
+	var err error
+	if try(func() { bs, err = p.Marshal() }) {
+		t.Panic()
+	} else if writeRes(t, err) {
+		t.Bytes(bs)
+	}
+}
+
+func observeC20(c *Case, in *PacketIn, extsNil bool, m c20Mut, onClone bool) {
+	orig := buildC20(in, extsNil)
+	nils := nilsOfHeader(&orig.Header)
+	nils.payload = orig.Payload == nil
+	writePacketIn(&c.I, in)
+	writeNils(&c.I, nils, true)
+	c.I.Nat(m.kind).Nat(m.a).Nat(m.b).Bytes(m.bs).Bool(onClone)
+
+	marshalTok(&c.O, orig)
+	var clone *rtp.Packet
+	if try(func() { clone = orig.Clone() }) || clone == nil {
+		c.O.Tok("panic-Clone")
+		return
+	}
+	writeSide(&c.O, clone)
+	cn := nilsOfHeader(&clone.Header)
+	cn.payload = clone.Payload == nil
+	writeNils(&c.O, cn, true)
+	origBytes := byteSlicesOf(&orig.Header, orig.Payload)
+	c.O.Bool(anyOverlap([][]byte{clone.Payload}, origBytes))
+	c.O.Bool(overlaps(csrcBytes(clone.CSRC), csrcBytes(orig.CSRC)))
+	c.O.Bool(overlaps(extArrayBytes(clone.Extensions), extArrayBytes(orig.Extensions)))
+	c.O.Bool(anyOverlap(byteSlicesOf(&clone.Header), origBytes))
+
+	hc := orig.Header.Clone()
+	writeHeaderObs(&c.O, &hc)
+	c.O.Nat(int(hc.ExtensionProfile))
+	writeNils(&c.O, nilsOfHeader(&hc), false)
+	c.O.Bool(overlaps(csrcBytes(hc.CSRC), csrcBytes(orig.CSRC)))
+	c.O.Bool(overlaps(extArrayBytes(hc.Extensions), extArrayBytes(orig.Extensions)))
+	c.O.Bool(anyOverlap(byteSlicesOf(&hc), origBytes))
+
+	mutated, other := orig, clone
+	if onClone {
+		mutated, other = clone, orig
+	}
+	// (Marshal of the mutated side may fail or panic, e.g. after the only legacy element was deleted)
+	var before, after []byte
+	try(func() { b, _ := mutated.Marshal(); before = cloneBytes(b) })
+	try(func() { m.apply(mutated) })
+	after = []byte("panic")
+	try(func() { after, _ = mutated.Marshal() })
+	if !bytes.Equal(before, after) {
+		c.Tag("mutation-effective")
+	}
+	writeSide(&c.O, other)
+	marshalTok(&c.O, other)
+}
+
+// genMut draws a mutation that is usually effective on the given packet.
+func genMut(r *Rand, in *PacketIn, kind int) c20Mut {
+	m := c20Mut{kind: kind}
+	switch kind {
+	case 1:
+		m.a = r.Intn(len(in.Payload) + 1)
+		if len(in.Payload) > 0 && r.Chance(7, 8) {
+			m.a = r.Intn(len(in.Payload))
+		}
+	case 2:
+		m.a = r.Intn(len(in.H.CSRC) + 1)
+		if len(in.H.CSRC) > 0 && r.Chance(7, 8) {
+			m.a = r.Intn(len(in.H.CSRC))
+		}
+	case 3:
+		if len(in.Exts) > 0 {
+			m.a = r.Intn(len(in.Exts))
+			if l := len(in.Exts[m.a].Payload); l > 0 {
+				m.b = r.Intn(l)
+			}
+		}
+	case 4:
+		// replace an existing element's value (same length: stays legal for the profile), or add one
+		if len(in.Exts) > 0 && r.Chance(2, 3) {
+			e := in.Exts[r.Intn(len(in.Exts))]
+			m.a = int(e.ID)
+			m.bs = r.Bytes(len(e.Payload))
+		} else {
+			m.a = r.Range(1, 14)
+			m.bs = r.Bytes(r.Pick(1, 2, 4, 16))
+			if in.H.Extension && in.H.ExtensionProfile != 0xBEDE && in.H.ExtensionProfile != 0x1000 {
+				m.a = 0
+				m.bs = r.Bytes(4 * r.Range(0, 3))
+			}
+		}
+	case 5:
+		if len(in.Exts) > 0 && r.Chance(7, 8) {
+			m.a = int(in.Exts[r.Intn(len(in.Exts))].ID)
+		} else {
+			m.a = r.Intn(256)
+		}
+	}
+	return m
+}
+
+// genPacketFull draws a well-formed packet with every field populated.
+func genPacketFull(r *Rand, kind int) *PacketIn {
+	p := &PacketIn{}
+	genFixed(r, &p.H)
+	p.H.Marker = true
+	p.H.CSRC = make([]uint32, r.Pick(1, 2, 3, 15))
+	for i := range p.H.CSRC {
+		p.H.CSRC[i] = uint32(r.U64())
+	}
+	p.H.Extension = true
+	for len(p.Exts) == 0 {
+		p.H.ExtensionProfile, p.Exts = genExts(r, kind, 6)
+	}
+	if kind == profTwo {
+		for i := range p.Exts {
+			if len(p.Exts[i].Payload) == 0 {
+				p.Exts[i].Payload = r.Bytes(r.Range(1, 40))
+			}
+		}
+	}
+	if kind == profLegacy && len(p.Exts[0].Payload) == 0 {
+		p.Exts[0].Payload = r.Bytes(8)
+	}
+	p.Payload = r.Bytes(r.Range(1, 200))
+	p.H.Padding = true
+	p.PadSize = uint8(r.Pick(1, 2, 4, 255, r.Range(1, 255)))
+	return p
+}
+
+func init() {
+	register("c20.clone", "C20", func(x *Ctx) {
+		// grid: profile x mutation x side, every field populated
+		for kind := profOne; kind <= profLegacy; kind++ {
+			for mk := 0; mk <= 5; mk++ {
+				for side := 0; side < 2; side++ {
+					for rep := 0; rep < 8; rep++ {
+						kind, mk, side := kind, mk, side
+						x.Case(func(c *Case) {
+							p := genPacketFull(c.R, kind)
+							tagPacket(c, p)
+							c.Tag([]string{"mut=none", "mut=payload", "mut=csrc", "mut=extbyte", "mut=set", "mut=del"}[mk])
+							observeC20(c, p, false, genMut(c.R, p, mk), side == 1)
+						})
+					}
+				}
+			}
+		}
+		// nil / empty variants of CSRC, Payload, Extensions and element payloads
+		for v := 0; v < 32; v++ {
+			for side := 0; side < 2; side++ {
+				v, side := v, side
+				x.Case(func(c *Case) {
+					p := &PacketIn{}
+					genFixed(c.R, &p.H)
+					p.H.CSRC = nil
+					if v&1 != 0 {
+						p.H.CSRC = []uint32{}
+					}
+					p.Payload = nil
+					if v&2 != 0 {
+						p.Payload = []byte{}
+					}
+					extsNil := v&4 == 0
+					if v&8 != 0 {
+						p.H.Extension = true
+						p.H.ExtensionProfile = 0x1000
+						if v&16 != 0 {
+							extsNil = false
+							p.Exts = []ExtIn{{7, nil}, {9, []byte{}}, {11, c.R.Bytes(3)}}
+						}
+					} else if v&16 != 0 {
+						p.H.ExtensionProfile = uint16(c.R.Intn(65536)) // not observable through the encoder, copied by Clone
+					}
+					c.Tag("nil-variants")
+					observeC20(c, p, extsNil, genMut(c.R, p, c.R.Intn(6)), side == 1)
+				})
+			}
+		}
+		for i, n := 0, x.N(30000, 1500000); i < n; i++ {
+			x.Case(func(c *Case) {
+				var p *PacketIn
+				switch c.R.Intn(10) {
+				case 0:
+					p = genPacketOdd(c.R, 60)
+					c.Tag("odd")
+				case 1, 2, 3:
+					p = genPacketWF(c.R, 300)
+				default:
+					p = genPacketFull(c.R, c.R.Pick(profOne, profTwo, profLegacy))
+				}
+				if !p.H.Extension && c.R.Bool() {
+					p.H.ExtensionProfile = uint16(c.R.Intn(65536))
+				}
+				tagPacket(c, p)
+				mk := c.R.Intn(6)
+				c.Tag([]string{"mut=none", "mut=payload", "mut=csrc", "mut=extbyte", "mut=set", "mut=del"}[mk])
+				observeC20(c, p, c.R.Bool(), genMut(c.R, p, mk), c.R.Bool())
 			})
 		}
 	})
